@@ -3,9 +3,11 @@ package props
 import (
 	"bufio"
 	"bytes"
+	stdjson "encoding/json"
 	"fmt"
 	"io"
 	"os"
+	"os/exec"
 	"strings"
 
 	"go.pennock.tech/tabular"
@@ -208,5 +210,86 @@ func renderInto(kind int, f func(w io.Writer) error) (string, error) {
 		b, _ := os.ReadFile(fl.Name())
 		os.Remove(fl.Name())
 		return string(b), err
+	}
+}
+
+// ---- programs that link only part of the library (cmd/minprog): what a style or a package-level function does
+// must not depend on what else the program imports
+
+// MinJob mirrors cmd/minprog's input.
+type MinJob struct {
+	Header []string   `json:"header"`
+	Rows   [][]string `json:"rows"`
+	Routes []string   `json:"routes"`
+}
+
+// MinResult mirrors cmd/minprog's per-route output.
+type MinResult struct {
+	Route string `json:"route"`
+	Out   string `json:"out"`
+	Err   string `json:"err,omitempty"`
+	Panic string `json:"panic,omitempty"`
+}
+
+// MinOut is what one run of a minimal program reports.
+type MinOut struct {
+	Listing []string      `json:"listing,omitempty"`
+	Results [][]MinResult `json:"results"`
+}
+
+// runMinprog runs the minimal program `which` (auto, csv, html, json, markdown, text) over the jobs; ok=false if the
+// program is not available (VERIF_MINPROG unset: the check was started without run.sh).
+func runMinprog(which string, jobs []MinJob) (MinOut, bool, error) {
+	var out MinOut
+	prefix := os.Getenv("VERIF_MINPROG")
+	if prefix == "" {
+		return out, false, nil
+	}
+	in, _ := stdjson.Marshal(jobs)
+	cmd := exec.Command(prefix + which)
+	cmd.Stdin = bytes.NewReader(in)
+	var so, se bytes.Buffer
+	cmd.Stdout, cmd.Stderr = &so, &se
+	if err := cmd.Run(); err != nil {
+		return out, true, fmt.Errorf("%s%s: %v; stderr: %s", prefix, which, err, tail(se.String(), 2000))
+	}
+	if err := stdjson.Unmarshal(so.Bytes(), &out); err != nil {
+		return out, true, fmt.Errorf("%s%s: unreadable output: %v", prefix, which, err)
+	}
+	return out, true, nil
+}
+
+func tail(s string, n int) string {
+	if len(s) > n {
+		return s[len(s)-n:]
+	}
+	return s
+}
+
+// minTables are the tables the minimal programs render.
+var minTables = []MinJob{
+	{Header: []string{"a", "b"}, Rows: [][]string{{"1", "2"}, nil, {"3"}}},
+	{Header: []string{"key", "value", "note"}, Rows: [][]string{{"x", "two\nlines", ""}, {"世界", "<&>|\"", "n"}}},
+	{Header: []string{"only"}, Rows: [][]string{{"v"}}},
+}
+
+func (j MinJob) build(t tabular.Table) {
+	if j.Header != nil {
+		hs := make([]interface{}, len(j.Header))
+		for i := range hs {
+			hs[i] = j.Header[i]
+		}
+		t.AddHeaders(hs...)
+	}
+	for _, r := range j.Rows {
+		if r == nil {
+			t.AddSeparator()
+			continue
+		}
+		items := make([]interface{}, len(r))
+		for i := range items {
+			items[i] = r[i]
+		}
+		t.AddRowItems(items...)
 	}
 }
